@@ -1,0 +1,48 @@
+//go:build verif && vectors
+// +build verif,vectors
+
+package zap
+
+import (
+	"sync/atomic"
+	"time"
+
+	segment "github.com/blevesearch/scorch_segment_api/v2"
+)
+
+func verifBase(seg segment.Segment) *SegmentBase {
+	switch s := seg.(type) {
+	case *Segment:
+		return &s.SegmentBase
+	case *SegmentBase:
+		return s
+	}
+	return nil
+}
+
+// VerifVecCacheTick runs one expiry pass of the segment's vector index cache
+// synchronously (what the monitor goroutine does on every timer tick) and
+// reports whether the cache is empty afterwards.
+func VerifVecCacheTick(seg segment.Segment) bool {
+	return verifBase(seg).vecIndexCache.cleanup()
+}
+
+// VerifVecCacheSetMonitorFreq sets the period of the cache monitor and returns the previous one.
+func VerifVecCacheSetMonitorFreq(d time.Duration) time.Duration {
+	old := monitorFreq
+	monitorFreq = d
+	return old
+}
+
+// VerifVecCacheRefs reports whether the field has a cache entry and its reference count.
+func VerifVecCacheRefs(seg segment.Segment, field string) (refs int64, present bool) {
+	sb := verifBase(seg)
+	vc := sb.vecIndexCache
+	vc.m.RLock()
+	defer vc.m.RUnlock()
+	entry, ok := vc.cache[sb.fieldsMap[field]]
+	if !ok {
+		return 0, false
+	}
+	return atomic.LoadInt64(&entry.refs), true
+}
